@@ -110,3 +110,62 @@ Definition cons_col_ib (rows : list (list Z)) : Z :=
 
 Definition run_looph5 (rows : list (list Z)) : list Z := run_looph4 rows ++ [cons_col_lh rows].
 Definition run_ibh4 (rows : list (list Z)) : list Z := run_ibh3 rows ++ [cons_col_ib rows].
+
+(* ---------- "equal up to the order of the node list" keeps self-consistency ---------- *)
+Section WfTransfer.
+Variables a b : hier.
+Hypothesis Hfind : forall x, find a x = find b x.
+Hypothesis Hna : NoDup (names a).
+Hypothesis Hnb : NoDup (names b).
+
+Lemma in_transfer n : In n a -> In n b.
+Proof. intros Hn. pose proof (find_of_In_nodup a n Hna Hn) as Hf. rewrite Hfind in Hf. apply (find_In _ _ _ Hf). Qed.
+Lemma in_transfer' n : In n b -> In n a.
+Proof. intros Hn. pose proof (find_of_In_nodup b n Hnb Hn) as Hf. rewrite <- Hfind in Hf. apply (find_In _ _ _ Hf). Qed.
+
+Lemma vis_transfer x t : Visible a x t -> Visible b x t.
+Proof.
+  induction 1 as [x t nx p rk0 hd0 ex0 ch0 pd0 ok0 Hx Hp Hkp Ht|x t nx p rk0 hd0 ex0 ch0 pd0 ok0 Hx Hp Hkp Hex _ IH].
+  - rewrite Hfind in Hx, Hp. eapply Vis_sib; eauto.
+  - rewrite Hfind in Hx, Hp. eapply Vis_up; eauto.
+Qed.
+
+Theorem wf_transfer : WfHier a -> WfHier b.
+Proof.
+  intros W. constructor.
+  - exact Hnb.
+  - destruct (wf_top a W) as [top [Htop Hr]]. exists top. split; [|exact Hr]. unfold top_region in *.
+    destruct (filter (fun n => Z.eqb (n_parent n) 0) a) as [|t0 [|t1 r]] eqn:Ef; try discriminate. injection Htop as ->.
+    destruct (filter_single_inv _ _ _ Ef) as [Hin [Hp Hu]].
+    rewrite (filter_single (fun n => Z.eqb (n_parent n) 0) b top); [reflexivity| | | |].
+    + apply (NoDup_map_inv n_name). exact Hnb.
+    + apply in_transfer. exact Hin.
+    + exact Hp.
+    + intros y Hy Hpy. apply Hu; [apply in_transfer'; exact Hy|exact Hpy].
+  - intros n Hn Hp. destruct (wf_up a W n (in_transfer' n Hn) Hp) as [p [rk0 [hd0 [ex0 [ch0 [pd0 [ok0 [A [B C]]]]]]]]].
+    rewrite Hfind in A. eauto 10.
+  - intros p rk0 hd0 ex0 ch0 pd0 ok0 Hin Hk. destruct (wf_down a W p _ _ _ _ _ _ (in_transfer' p Hin) Hk) as [A B].
+    split; [exact A|]. intros c Hc. destruct (B c Hc) as [n [Hn Hp]]. rewrite Hfind in Hn. eauto.
+  - intros p rk0 hd0 ex0 ch0 pd0 ok0 Hin Hk. exact (wf_hdr a W p _ _ _ _ _ _ (in_transfer' p Hin) Hk).
+  - intros n t Hin Hp Ht. apply vis_transfer. exact (wf_scope a W n t (in_transfer' n Hin) Hp Ht).
+  - intros p rk0 hd0 ex0 ch0 pd0 ok0 Hin Hk Hp. destruct (wf_rjt a W p _ _ _ _ _ _ (in_transfer' p Hin) Hk Hp) as [nex [A B]].
+    rewrite Hfind in A. eauto.
+  - intros p rk0 hd0 ex0 ch0 pd0 ok0 Hin Hk. exact (wf_parent a W p _ _ _ _ _ _ (in_transfer' p Hin) Hk).
+Qed.
+End WfTransfer.
+
+(* the comparison made per call is enough for C04 as well *)
+Theorem compared_equal_keeps_wf a b : xhier_eqb a b = true -> WfHier a -> WfHier b.
+Proof.
+  intros He W. destruct (xhier_eqb_sound a b (wf_nodup a W) He) as [_ [Hfind Hnb]].
+  exact (wf_transfer a b Hfind (wf_nodup a W) Hnb W).
+Qed.
+
+(* so a call whose column is 1 leaves the implementation's hierarchy self-consistent *)
+Theorem wf_level_col_sound h ha lvl : wf_level_col h ha lvl = 1 -> WfHier ha.
+Proof.
+  unfold wf_level_col. destruct (level_graph ha lvl) as [g'|]; [|discriminate].
+  destruct (wf_check h && level_okb h lvl g' && xhier_eqb (write_back h lvl g') ha) eqn:E; [|discriminate]. intros _.
+  apply andb_true_iff in E as [E E3]. apply andb_true_iff in E as [E1 E2].
+  apply (compared_equal_keeps_wf _ _ E3). apply level_edit_keeps_wf_b; assumption.
+Qed.
